@@ -26,6 +26,7 @@ CONSTANTS Dev, Part,
           \* part D
           Whitelists, Cmds, ArgVecs,          \* sets of: sets of strings / strings / sequences of strings
           AuthCmds, AuthArgVecs,              \* the small sub-domain combined with every enabled/password case
+          CmdSliceArgs, ArgSliceWls, ArgSliceCmds,   \* see Cases
           \* part S
           Streams, Observers, Max, MaxOpens
 
@@ -51,11 +52,18 @@ BaseOf(s) == IF ~Has(s, {"/"}) THEN s
 
 PwCases == {<<"none", "absent">>, <<"none", "given">>, <<"set", "absent">>, <<"set", "match">>, <<"set", "wrong">>}
 CaseRec(en, pw, wl, cmd, args) == [enabled |-> en, pwcfg |-> pw[1], pw |-> pw[2], wl |-> wl, cmd |-> cmd, args |-> args]
+\* the domain is a union of three slices (with CmdSliceArgs = ArgVecs, ArgSliceWls = Whitelists and ArgSliceCmds = Cmds
+\* the last two are the full product):
+\*   every enabled / password case          x every whitelist x AuthCmds x AuthArgVecs
+\*   password not configured / matching     x every whitelist x every command form x CmdSliceArgs
+\*   password not configured                x ArgSliceWls x ArgSliceCmds x every argument vector
 Cases ==
   {CaseRec(en, pw, wl, cmd, args) : en \in BOOLEAN, pw \in PwCases, wl \in Whitelists, cmd \in AuthCmds, args \in AuthArgVecs}
   \cup
   {CaseRec(TRUE, pw, wl, cmd, args) : pw \in {<<"none", "absent">>, <<"set", "match">>}, wl \in Whitelists, cmd \in Cmds,
-                                      args \in ArgVecs}
+                                      args \in CmdSliceArgs}
+  \cup
+  {CaseRec(TRUE, <<"none", "absent">>, wl, cmd, args) : wl \in ArgSliceWls, cmd \in ArgSliceCmds, args \in ArgVecs}
 
 \* ---- the oracle: the property statement
 AuthOK(c) == c.pwcfg = "none" \/ c.pw = "match"
@@ -68,22 +76,30 @@ MayStart(c) ==
      \/ /\ c.cmd \in c.wl /\ ~Has(c.cmd, {"/", "\\"})          \* exactly a whitelisted base name
         /\ ArgsClean(c.args)
 
-\* ---- the implementation: Executor.validateAndAcquire up to AcquireSession
-ImplAuth(c) ==                                                   \* ValidateAuth
+\* ---- the implementation: Executor.validateAndAcquire up to AcquireSession (D: the enabled deviations)
+ImplAuthD(c, D) ==                                               \* ValidateAuth
   IF c.pwcfg = "none" THEN TRUE
-  ELSE IF c.pw = "absent" THEN "DevEmptyPasswordOK" \in Dev
+  ELSE IF c.pw = "absent" THEN "DevEmptyPasswordOK" \in D
   ELSE c.pw = "match"
-ImplCmd(c) ==                                                    \* IsCommandAllowed
+ImplCmdD(c, D) ==                                                \* IsCommandAllowed
   IF c.wl = {} THEN FALSE
   ELSE IF Wildcard(c.wl) THEN TRUE
-  ELSE IF "DevBaseOfPath" \in Dev THEN BaseOf(c.cmd) \in c.wl
+  ELSE IF "DevBaseOfPath" \in D THEN BaseOf(c.cmd) \in c.wl
   ELSE IF Has(c.cmd, {"/", "\\"}) THEN FALSE
-  ELSE IF "DevPrefixMatch" \in Dev THEN \E w \in c.wl : IsPrefixS(w, c.cmd)
-  ELSE IF "DevCaseFold" \in Dev THEN \E w \in c.wl : LowerS(w) = LowerS(c.cmd)
+  ELSE IF "DevPrefixMatch" \in D THEN \E w \in c.wl : IsPrefixS(w, c.cmd)
+  ELSE IF "DevCaseFold" \in D THEN \E w \in c.wl : LowerS(w) = LowerS(c.cmd)
   ELSE c.cmd \in c.wl
-ImplArgs(c) ==                                                   \* ValidateArgs
-  IF Wildcard(c.wl) \/ "DevNoArgCheck" \in Dev THEN TRUE ELSE ArgsClean(c.args)
-Impl(c) == c.enabled /\ ImplAuth(c) /\ ImplCmd(c) /\ ImplArgs(c)
+ImplArgsD(c, D) ==                                               \* ValidateArgs
+  IF Wildcard(c.wl) \/ "DevNoArgCheck" \in D THEN TRUE ELSE ArgsClean(c.args)
+ImplD(c, D) == c.enabled /\ ImplAuthD(c, D) /\ ImplCmdD(c, D) /\ ImplArgsD(c, D)
+Impl(c) == ImplD(c, Dev)
+
+\* sensitivity of the decision domain, decided in the same TLC run: for every decision deviation a case of the domain
+\* in which the deviating implementation starts a process the statement forbids ("" if the domain has none)
+DDevs == {"DevPrefixMatch", "DevBaseOfPath", "DevNoArgCheck", "DevEmptyPasswordOK", "DevCaseFold"}
+DevWitness(d) == LET bad == {x \in Cases : ImplD(x, {d}) /\ ~MayStart(x)} IN
+                 IF bad = {} THEN [found |-> FALSE] ELSE [found |-> TRUE, n |-> Cardinality(bad), c |-> CHOOSE x \in bad : TRUE]
+DevReport == PrintT("DEVCHK " \o ToJson([d \in DDevs |-> DevWitness(d)]))
 
 \* why the oracle forbids the start (for the harness' report), "" when allowed
 Why(c) == IF ~c.enabled THEN "disabled" ELSE IF ~AuthOK(c) THEN "auth"
